@@ -54,7 +54,12 @@ pub struct Ghost {
     pub last: Option<(bool, u8, u64, u64, bool)>,
 }
 
+pub type VApprover = vls_protocol_signer::approver::VelocityApprover<vls_protocol_signer::approver::NegativeApprover>;
+
 pub struct VState {
+    /// approver mode: the integrator's velocity approver in front of the node (its delegate
+    /// declines everything, so whatever is approved was approved by the velocity control)
+    pub approver: Option<VApprover>,
     pub w: Option<World>,
     pub ghost: Ghost,
     pub dead: bool,
@@ -68,6 +73,26 @@ pub struct VelModel {
     /// the node takes its limits from the chain-aware validator factory (as vlsd builds it)
     #[serde(default)]
     pub onchain: bool,
+    /// payment requests go through `VelocityApprover<NegativeApprover>::handle_proposed_invoice /
+    /// handle_proposed_keysend` with the limit PAY_LIMIT; the node's own limit is four times that,
+    /// so the approver's control is the binding one.  On restart the approver's control is carried
+    /// over the way its documentation describes (get_state / load_from_state).
+    #[serde(default)]
+    pub approver: bool,
+}
+
+fn approver_spec() -> VelocityControlSpec {
+    VelocityControlSpec { limit_msat: PAY_LIMIT, interval_type: VelocityControlIntervalType::Hourly }
+}
+
+fn make_approver(w: &World, state: Option<(u64, Vec<u64>)>) -> VApprover {
+    use lightning_signer::util::velocity::VelocityControl;
+    let control = match state {
+        None => VelocityControl::new(approver_spec()),
+        Some(st) => VelocityControl::load_from_state(approver_spec(), st),
+    };
+    let clock: std::sync::Arc<dyn lightning_signer::util::clock::Clock> = w.clock.clone();
+    vls_protocol_signer::approver::VelocityApprover::new(clock, control, vls_protocol_signer::approver::NegativeApprover())
 }
 
 impl VState {
@@ -133,13 +158,18 @@ impl Model for VelModel {
     }
 
     fn name(&self) -> String {
-        format!("nodevel(ops<={}{}{})", self.max_ops, if self.monitors { ",monitors" } else { "" }, if self.onchain { ",on-chain validator factory" } else { "" })
+        format!("nodevel(ops<={}{}{}{})", self.max_ops, if self.monitors { ",monitors" } else { "" }, if self.onchain { ",on-chain validator factory" } else { "" }, if self.approver { ",velocity approver in front" } else { "" })
     }
 
     fn init(&self) -> VState {
         let mut c = cfg();
         c.onchain = self.onchain;
-        VState { w: Some(World::new(c)), ghost: Ghost { next_hash: 10, ..Default::default() }, dead: false, nops: 0 }
+        if self.approver {
+            c.policy.as_mut().unwrap().global_velocity_control.limit_msat = 4 * PAY_LIMIT;
+        }
+        let w = World::new(c);
+        let approver = if self.approver { Some(make_approver(&w, None)) } else { None };
+        VState { approver, w: Some(w), ghost: Ghost { next_hash: 10, ..Default::default() }, dead: false, nops: 0 }
     }
 
     fn alive(&self, s: &VState) -> bool {
@@ -179,7 +209,8 @@ impl Model for VelModel {
         let now = s.w().now();
         let rel = |l: &Vec<(u64, u64)>| l.iter().filter(|(t, _)| now - *t <= WINDOW).map(|(t, a)| (now - *t, *a)).collect::<Vec<_>>();
         let last = s.ghost.last.map(|(i, _, a, t, ok)| (i, a, now - t, ok));
-        format!("{}|{}|{:?}|{:?}|{}|{:?}", fp(&s.w().snapshot()), now % BUCKET, rel(&s.ghost.pay), rel(&s.ghost.fee), fp(&serde_json::json!(s.w().raw_velocity())), last)
+        let appr = s.approver.as_ref().map(|a| a.control().get_state());
+        format!("{}|{}|{:?}|{:?}|{}|{:?}|{:?}", fp(&s.w().snapshot()), now % BUCKET, rel(&s.ghost.pay), rel(&s.ghost.fee), fp(&serde_json::json!(s.w().raw_velocity())), last, appr)
     }
 
     fn apply(&self, s: &mut VState, op: &Op, check: bool, vios: &mut Vec<Vio>) {
@@ -207,8 +238,14 @@ impl Model for VelModel {
         match op {
             Op::Restart => {
                 let w = s.w.take().unwrap();
+                let carried = s.approver.take().map(|a| a.control().get_state());
                 match catch(move || w.restart()) {
-                    Ok(w2) => s.w = Some(w2),
+                    Ok(w2) => {
+                        if let Some(st) = carried {
+                            s.approver = Some(make_approver(&w2, Some(st)));
+                        }
+                        s.w = Some(w2)
+                    }
                     Err(p) => {
                         vios.push(Vio { prop: "C11", key: "C11:restart-panics:velocity".into(), what: format!("restart panicked: {}", p) });
                         s.dead = true;
@@ -242,14 +279,26 @@ impl Model for VelModel {
                     _ => s.ghost.last.unwrap(),
                 };
                 let retry = matches!(op, Op::Retry);
-                let r = call(move || {
-                    if is_inv {
-                        node.add_invoice(make_invoice(h, amt, created)).map_err(|e| status_kind(&e))
-                    } else {
+                let appr = s.approver.take();
+                let (r, appr) = {
+                    use vls_protocol_signer::approver::Approve;
+                    let mut back = None;
+                    let r = call(|| {
                         let payee = PublicKey::from_secret_key(&secp(), &sk(201));
-                        node.add_keysend(payee, pay_hash(h), amt).map_err(|e| status_kind(&e))
+                        let r = match &appr {
+                            Some(a) if is_inv => a.handle_proposed_invoice(&node, make_invoice(h, amt, created)),
+                            Some(a) => a.handle_proposed_keysend(&node, payee, pay_hash(h), amt),
+                            None if is_inv => node.add_invoice(make_invoice(h, amt, created)),
+                            None => node.add_keysend(payee, pay_hash(h), amt),
+                        };
+                        r.map_err(|e| status_kind(&e))
+                    });
+                    if !r.is_panic() {
+                        back = appr;
                     }
-                });
+                    (r, back)
+                };
+                s.approver = appr;
                 tag = r.tag();
                 if !retry {
                     s.ghost.next_hash = s.ghost.next_hash.wrapping_add(1);
@@ -337,12 +386,13 @@ pub fn explore(tier: Tier, monitors: bool, wall_s: f64) -> VelRun {
     let main_depth = if monitors { tier.pick(3, 5) } else { tier.pick(5, 7) };
     let mut cfgs = vec![];
     if !monitors {
-        cfgs.push(VelModel { max_ops: tier.pick(3, 5), monitors, onchain: true });
+        cfgs.push(VelModel { max_ops: tier.pick(3, 5), monitors, onchain: true, approver: false });
+        cfgs.push(VelModel { max_ops: tier.pick(4, 6), monitors, onchain: false, approver: true });
     }
-    cfgs.push(VelModel { max_ops: main_depth, monitors, onchain: false });
+    cfgs.push(VelModel { max_ops: main_depth, monitors, onchain: false, approver: false });
     let n = cfgs.len();
     for (i, m) in cfgs.into_iter().enumerate() {
-        let per = (wall_s - t0.elapsed().as_secs_f64()).max(1.0) / (n - i) as f64 * if i + 1 < n { 0.5 } else { 1.0 };
+        let per = (wall_s - t0.elapsed().as_secs_f64()).max(1.0) / (n - i) as f64 * if i + 1 < n { 0.6 } else { 1.0 };
         let lim = Limits { max_depth: m.max_ops, max_states: 3_000_000, wall_s: per };
         let st = bfs(&m, &lim, &mut found);
         models.push(format!("{}: states={} transitions={} closed={} bounded_complete={} depth={} t={:.1}s", m.name(), st.states, st.transitions, st.closed, st.bounded_complete, st.max_depth, st.wall_s));
